@@ -88,15 +88,21 @@ func (c *hbConn) recvLoop() {
 			continue
 		}
 
-		if err != nil {
+		if err != nil && n == 0 {
 			c.Close()
 			return
 		}
 
 		timer := time.NewTimer(c.timeout)
 		select {
-		case c.recvCh <- errBytes{buffer[:n], err}:
+		case c.recvCh <- errBytes{buffer[:n], nil}:
 			timer.Stop()
+			if err != nil {
+				// The data that came together with the error is queued for
+				// the reader; the error closes the connection after it.
+				c.Close()
+				return
+			}
 			continue
 		case <-timer.C:
 			c.Close()
